@@ -426,3 +426,23 @@ M("c19_only_first_parent_registered", "C19", "ak/cli_tools.py",
   "            for p in sorted(parents)[:2]:\n                parent_parser = self.command_parsers[p]")
 M("c19_no_color_not_normalised", "C19", "ak/cli_tools.py",
   "        if args.no_color:\n            args.color = False", "        if args.no_color and args.color != 'auto':\n            args.color = False")
+
+# ---------------------------------------------------------------- C10
+M("c10_revert_enum_cache_key", "C10", "ak/ppobj.py",
+  "        self._cache = weakref.WeakKeyDictionary()", "        self._cache = {}")
+MUTANTS[-1]["also"] = [("ak/ppobj.py", "        cache_key = field_palette  # need to maintain", "        cache_key = id(field_palette)  # need to maintain")]
+# (storing the no_color palette on the Palette base class is shadowed by the per-class attribute: equivalent)
+# (an __iter__ that yields the already built whole text as a single 'line' gives the same text: equivalent)
+M("c10_palette_cache_ignores_config", "C10", "ak/color.py",
+  "            return colors_conf.get_cached_obj(cls)", "            return cls.__dict__.get('_vf_last_palette')")
+MUTANTS[-1]["also"] = [("ak/color.py", "            colors_conf.put_into_cache(cls, palette)", "            cls._vf_last_palette = palette")]
+M("c10_title_cell_width_counts_escapes", "C10", "ak/ppobj.py",
+  "        filler_len = width - CHText.calc_chunks_len(ch_chunks)\n        if filler_len == 0:",
+  "        filler_len = width - (CHText.calc_chunks_len(ch_chunks) if len(ch_chunks) != 2 else len(str(CHText.make(list(ch_chunks)))) - 0)\n        if filler_len == 0:")
+M("c10_enum_cache_shared_between_palettes", "C10", "ak/ppobj.py",
+  "        cache_key = field_palette  # need to maintain", "        cache_key = type(field_palette)  # need to maintain")
+M("c10_pp_keyword_dropped_in_no_color", "C10", "ak/ppobj.py",
+  "            return cp.keyword(self._consts[value])", "            return cp.keyword(self._consts[value] if cp.keyword('x').c_prefix or value is not None else 'nil')")
+M("c10_sub_palette_cache_ignores_no_color", "C10", "ak/color.py",
+  "            result = actual_palette_class(self.colors_conf, self._no_color)\n",
+  "            result = actual_palette_class(self.colors_conf, False)\n")
